@@ -15,6 +15,8 @@ def fireloops(ctx):
         e = json.loads(ln)
         if "l" in e and e["l"]["op"] == "start":
             cases.append((e["l"]["engine"], sorted(k for k, v in e["l"]["rules"].items() if v)))
+    # beyond the rule kinds of FireLoops.tla: a chain of 130 rules, one firing per pass, on the engine whose guard counts passes
+    cases.append(("ul", ["CHAIN"]))
     n = 0
     for eng, kinds in cases:
         try:
